@@ -910,6 +910,8 @@ func (c09) Witnesses() []*sim.Case {
 		mk("row inserted inside a vertical merge", sim.Op{K: "t.mergev", I: []int{0, 0, 2, 0}}, sim.Op{K: "t.insrow", I: []int{0, 1}, S: []sim.Str{"x"}}),
 		mk("row that starts a vertical merge deleted", sim.Op{K: "t.mergev", I: []int{0, 0, 2, 0}}, sim.Op{K: "t.delrow", I: []int{0, 0}}),
 		mk("unmerge of a vertical merge one of whose rows was shortened afterwards", sim.Op{K: "t.mergev", I: []int{0, 0, 1, 2}}, mh(1, 0, 1), sim.Op{K: "t.unmerge", I: []int{0, 0, 2}}),
+		mk("row that starts a vertical merge deleted after the row below was shortened", sim.Op{K: "t.mergev", I: []int{0, 0, 1, 2}}, mh(1, 0, 1), sim.Op{K: "t.delrow", I: []int{0, 0}}),
+		mk("row that starts a vertical merge deleted after the last row below was shortened", sim.Op{K: "t.mergev", I: []int{0, 1, 2, 2}}, mh(2, 0, 1), sim.Op{K: "t.delrow", I: []int{0, 1}}),
 		mk("CopyTable shares state", sim.Op{K: "t.copy", I: []int{0}}),
 	}
 }
